@@ -196,10 +196,7 @@ def classify_call(prog, finfo):
                         return info
 
     # --- loop form
-    loops = [n for n in ast.walk(finfo.node) if isinstance(n, ast.For)]
-    if len(loops) == 1:
-        loop = loops[0]
-        lo, hi = loop.lineno, loop.end_lineno
+    if any(c.kind == 'loop' for p in paths for c in p.conds):
         table = {}
         attr = None
         bad = None
@@ -223,7 +220,8 @@ def classify_call(prog, finfo):
             if not isc or not isinstance(v, bool):
                 bad = 'non-constant return'
                 break
-            inside = lo <= p.outcome.line <= hi
+            # decided by this element (the scan stops) or after the scan
+            inside = not any(e.kind == 'loopdone' for e in p.events)
             if not lc[0].pol:
                 key = ('empty',)
             else:
